@@ -14,7 +14,7 @@ CSS_ALPHA = {"{", "}", ":", ";", "(", ")", "DQ", "'", "BS", "/", "*", "a", " ", 
 # document fragments for Fragments.tla: tags of ordinary, void and special elements (also stray closing tags), comment / CDATA
 # delimiters, attribute shapes; rule / declaration / comment / string pieces
 FRAG_H = {"<a>", "</a>", "<br>", "</br>", "<p k=l m>", "<img a=b/>", "<!-- ", "-->", "<script>", "</script>", "t ", "<", ">", "<b c=DQd>eDQ>", "</b>",
-          "<![CDATA[", "]]>", "NL", "<script type>", "<style media=", "/>", "<script type=DQ>", "<style title=DQa</style>DQ>"}
+          "<![CDATA[", "]]>", "NL", "<script type>", "<style media=", "/>", "<script type=DQ>", "<style title=DQa</style>DQ>", "</style >", "</scriptNL>"}
 FRAG_S = {"a{", "}", "b:c;", "d:e", "/*", "*/", "DQ", "'", "BS", "CR", "(", ")", ";", "@m (x:y){", " ", "NL"}
 HTML_DOCS = ['<a><b c="d>e"></b></a>', '<p k=l m><br><img a=b></p>', '<a x=\'>\' {y}><!-- <a> --></a>', '<style>a>b{}</style><p t={a>b}/>',
              '<b *ng="v" #ref><![CDATA[<b>]]></b>', '<script>if(a<b)"</p>"</script><?pi <p> ?>',
@@ -227,7 +227,7 @@ def run(out):
 # string of the instance and prints events, attributes and the three answers at every position; they are compared with the code
 
 SCAN_CHARS = {"<", ">", "/", "=", "DQ", "'", "BS", "!", "-", "?", "[", "]", "a", " ", "NL", "{", "}", "*", "#", "."}
-SCAN_FRAGS = {"<a", "<br", "<b>", "</b>", "</a>", ">", "/>", " x=", "DQ", "'", "y", "<!--", "-->", "<script", "</script>", "<style>", "</style>",
+SCAN_FRAGS = {"<a", "<br", "<b>", "</b>", "</a>", ">", "/>", " x=", "DQ", "'", "y", "<!--", "-->", "<script", "</script>", "<style>", "</style>", "</style >",
               " ", " type=", "text/x", "<![CDATA[", "]]>", "<?", "?>", "{", "}", "BS", "/", "<", "=", "NL", "(", ")", "[", "]", "*n", "#r", "a:b-c.d_"}
 
 
